@@ -838,7 +838,16 @@ impl Engine for StorageEngine {
         };
         let a = match chunk {
             Some((i, _)) => arts[i].clone(),
-            None => arts[(ctx.k as usize) % arts.len()].clone(),
+            None => {
+                // one run in four works on a plutus.json (the consumer chain behind it is the
+                // longest: JSON → schemas → hex → CBOR → flat → hash check → apply → re-serialise)
+                let blueprints: Vec<&Artefact> = arts.iter().filter(|a| a.kind == Kind::Blueprint).collect();
+                if ctx.k % 4 == 0 && !blueprints.is_empty() {
+                    blueprints[((ctx.k / 4) as usize) % blueprints.len()].clone()
+                } else {
+                    arts[(ctx.k as usize) % arts.len()].clone()
+                }
+            }
         };
         let exhaustive = chunk.is_some();
         let cases = match ctx.tier {
